@@ -1161,14 +1161,15 @@ def run(ck):
                    'search only: own pure-Python Horton minimum-cycle-basis, bridge finder, block finder (validated once against networkx 3.6.1)']
     ck.assumptions += [
         'the SSSR selection (_bfs, _make_pid, _c_set, _rings_filter, _is_condensed_ring, _connected_rings) is NOT modelled; every sssr output of the '
-        'inputs is run through the verified checker is_cycle_basis instead (theorem C06_basis_checker_sound)',
+        'inputs is run through the verified checker is_cycle_basis instead (theorems C06_basis_checker_sound / _complete)',
         'minimum total size and numbering independence of the ring-size multiset are search results (reference: mcb_ref inside Coq on molecules '
-        '<= 26 atoms / 8 rings, and a pure-Python Horton implementation on all), not theorems; minimality of mcb_ref itself is not proved',
+        '<= 26 atoms / 8 rings, and a pure-Python Horton implementation on all), not theorems; minimality of mcb_ref itself is not proved (proved: it returns independent simple cycles)',
         'set iteration order (set.pop in _connected_components) is an explicit input of the model and the theorem holds for every order; '
         'set-valued results are compared after sorting',
         'gap families of the property text are recognised structurally (a block containing two cycles that share exactly one path, all three '
-        'bridges >= 3 bonds -- embedded cores included; a block with >= 6 rings and average degree >= 3) and excluded from the minimality / '
-        'invariance comparisons only']
+        'bridges >= 3 bonds -- embedded cores included; a block with >= 6 rings and average degree >= 3); they are outside the claimed domain '
+        'of the property: what sssr does on them is counted in search_stats and never reported',
+        'a ring perception that does not return within 60 s is reported as a counterexample (the unchanged code needs < 1 s on every input)']
     ck.extra['rule'] = ('inputs: hand-made ring systems + special-bond decorations + random fused/spiro/bridged/linked assemblies of 3-8 membered rings + '
                         'macrocycles + lipophilicity.csv sample + test/cycle.sdf, each also rebuilt from scratch under a random renumbering and insertion '
                         'order; exhaustive connected labelled graphs (quick: <= 6 atoms, thorough: <= 7 atoms/5 rings and 8 atoms/3 rings, degree <= 4). '
